@@ -180,6 +180,48 @@ example : ((iter cfgEx (init cfgEx 0) { sends := [], dt := 5, recv := .none }).b
     .ok ((genuine cfgEx s'.1 (respEx 33434)).isSome && (genuine cfgEx s'.1 (respEx 33435)).isNone))
     = (.ok true : R Bool) := by decide +kernel
 
+/-! ### the identifiers the CLI assigns (`pid + i`) -/
+
+/-- never zero (zero is the wildcard every tracer accepts) and a `u16` -/
+theorem cli_trace_id_range (pid i : Nat) : 1 ≤ cliTraceId pid i ∧ cliTraceId pid i ≤ 65535 := by
+  unfold cliTraceId
+  simp only []
+  split <;> omega
+
+/-- distinct tracers of one invocation get distinct identifiers (up to 65535 targets) -/
+theorem cli_trace_id_distinct (pid i j : Nat) (hi : i < 65535) (hj : j < 65535) (hij : i ≠ j) :
+    cliTraceId pid i ≠ cliTraceId pid j := by
+  unfold cliTraceId
+  simp only []
+  split <;> split <;> omega
+
+/-- the usual case is still `pid + i` -/
+theorem cli_trace_id_usual (pid i : Nat) (h0 : 0 < pid + i) (h : pid + i < 65535) :
+    cliTraceId pid i = pid + i := by
+  unfold cliTraceId
+  simp only []
+  have h1 : pid % 65535 = pid := Nat.mod_eq_of_lt (by omega)
+  have h2 : i % 65535 = i := Nat.mod_eq_of_lt (by omega)
+  rw [h1, h2, Nat.mod_eq_of_lt h]
+  split <;> omega
+
+/-- **Tracers started together do not hear each other (ICMP).**  Two tracers of one invocation
+(identifiers `cliTraceId pid i`, `cliTraceId pid j`, `i ≠ j`): whatever tracer `j` receives in
+answer to a probe of tracer `i` (it carries `i`'s identifier) is not genuine for `j` — hence, by
+`non_genuine_unchanged` / `run_dejunk`, changes nothing in `j`'s trace. -/
+theorem sibling_response_rejected (c : Cfg) (s : TS) (r : Resp) (pid i j : Nat)
+    (hi : i < 65535) (hj : j < 65535) (hij : i ≠ j) (hc : c.traceId = cliTraceId pid j)
+    (hr : (strategyResp c r).traceId = cliTraceId pid i) : genuine c s r = none := by
+  apply foreign_trace_id_rejected
+  · rw [hr, hc]; exact cli_trace_id_distinct pid i j hi hj hij
+  · rw [hr]; have := (cli_trace_id_range pid i).1; omega
+
+/-- the assignment before the repair: process id ≡ 0 (mod 65535) gave the wildcard identifier 0 to
+the first tracer — every sibling then accepts its responses — and `pid + i` overflowed -/
+theorem old_assignment_wildcard : cliTraceIdOld 0 0 = .ok 0 ∧ checkTraceId { cfgEx with traceId := 1 } 0 = true := by
+  decide
+theorem old_assignment_overflow : cliTraceIdOld 65534 2 = .panic := by decide
+
 end TV.Props.C03
 
 #print axioms TV.Props.C03.non_genuine_unchanged
@@ -193,3 +235,9 @@ end TV.Props.C03
 #print axioms TV.Props.C03.invalid_tuple_rejected
 #print axioms TV.Props.C03.other_target_invalid
 #print axioms TV.Props.C03.run_dejunk
+#print axioms TV.Props.C03.cli_trace_id_range
+#print axioms TV.Props.C03.cli_trace_id_distinct
+#print axioms TV.Props.C03.cli_trace_id_usual
+#print axioms TV.Props.C03.sibling_response_rejected
+#print axioms TV.Props.C03.old_assignment_wildcard
+#print axioms TV.Props.C03.old_assignment_overflow
